@@ -48,16 +48,19 @@ impl<'a, T: Read + Seek> QueueReader<'a, T> {
 
     /// Returns the number of complete and available points across all queues.
     pub fn available(&self) -> usize {
-        if self.queues.is_empty() {
-            return 0;
-        }
-
+        // Records with a bit size of zero are not stored, they never limit the number of points
         let mut av = usize::MAX;
-        for q in &self.queues {
-            let len = q.len();
-            if len < av {
-                av = len;
+        for (i, q) in self.queues.iter().enumerate() {
+            if self.pc.prototype[i].data_type.bit_size() != 0 {
+                let len = q.len();
+                if len < av {
+                    av = len;
+                }
             }
+        }
+        if av == usize::MAX {
+            // Empty prototype or no record with a non-zero bit size
+            return 0;
         }
         av
     }
@@ -67,9 +70,18 @@ impl<'a, T: Read + Seek> QueueReader<'a, T> {
     pub fn pop_point(&mut self, output: &mut RawValues) -> Result<()> {
         output.clear();
         for i in 0..self.pc.prototype.len() {
-            let value = self.queues[i]
-                .pop_front()
-                .internal_err("Failed to pop value for next point")?;
+            let data_type = &self.pc.prototype[i].data_type;
+            let empty = data_type.bit_size() == 0;
+            let value = match data_type {
+                // Records with a bit size of zero have no stored values, all values equal the minimum
+                RecordDataType::Integer { min, .. } if empty => RecordValue::Integer(*min),
+                RecordDataType::ScaledInteger { min, .. } if empty => {
+                    RecordValue::ScaledInteger(*min)
+                }
+                _ => self.queues[i]
+                    .pop_front()
+                    .internal_err("Failed to pop value for next point")?,
+            };
             output.push(value);
         }
         Ok(())
@@ -127,33 +139,20 @@ impl<'a, T: Read + Seek> QueueReader<'a, T> {
                     self.byte_streams[i].append(&self.buffer);
                 }
 
-                // Find smallest number of expected items in any queue after stream unpacking.
-                // This is required for the corner case when the bit size of an record
-                // is zero and we don't know how many items to "unpack" from an empty buffer.
-                // This happens for example with integer values where min=max, because all values are equal.
-                let mut min_queue_size = usize::MAX;
-                for (i, bs) in self.byte_streams.iter().enumerate() {
-                    let bit_size = self.pc.prototype[i].data_type.bit_size();
-                    // We can only check records with a non-zero bit size
-                    if bit_size != 0 {
-                        let bs_items = bs.available() / bit_size;
-                        let queue_items = self.queues[i].len();
-                        let items = bs_items + queue_items;
-                        if items < min_queue_size {
-                            min_queue_size = items;
-                        }
-                    }
-                }
-
                 // Without any record of non-zero bit size the number of points
-                // in the packet is unknown and nothing bounds the queues.
-                if min_queue_size == usize::MAX {
+                // in the packet is unknown.
+                let sized = self
+                    .pc
+                    .prototype
+                    .iter()
+                    .any(|r| r.data_type.bit_size() != 0);
+                if !sized {
                     Error::not_implemented(
                         "Point clouds without any record of non-zero bit size are not supported",
                     )?
                 }
 
-                self.parse_byte_streams(min_queue_size)?;
+                self.parse_byte_streams()?;
             }
         };
 
@@ -163,7 +162,7 @@ impl<'a, T: Read + Seek> QueueReader<'a, T> {
     }
 
     /// Extracts raw values from byte streams into queues.
-    fn parse_byte_streams(&mut self, min_queue_size: usize) -> Result<()> {
+    fn parse_byte_streams(&mut self) -> Result<()> {
         for (i, r) in self.pc.prototype.iter().enumerate() {
             match r.data_type {
                 RecordDataType::Single { .. } => {
@@ -173,16 +172,9 @@ impl<'a, T: Read + Seek> QueueReader<'a, T> {
                     BitPack::unpack_doubles(&mut self.byte_streams[i], &mut self.queues[i])?
                 }
                 RecordDataType::ScaledInteger { min, max, .. } => {
-                    if r.data_type.bit_size() == 0 {
-                        // If the bit size of an record is zero, we don't know how many items to unpack.
-                        // Thats because they are not really unpacked, but instead generated with a predefined value.
-                        // Since this can only happen when min=max we know that min is the expected value.
-                        // We use the supplied minimal size to ensure that we create enough items
-                        // to fill the queue enough to not be the limiting queue.
-                        while self.queues[i].len() < min_queue_size {
-                            self.queues[i].push_back(RecordValue::ScaledInteger(min));
-                        }
-                    } else {
+                    // Records with a bit size of zero have no byte stream data and are not queued.
+                    // This happens when min=max, all values are known to be equal to min.
+                    if r.data_type.bit_size() != 0 {
                         BitPack::unpack_scaled_ints(
                             &mut self.byte_streams[i],
                             min,
@@ -192,12 +184,8 @@ impl<'a, T: Read + Seek> QueueReader<'a, T> {
                     }
                 }
                 RecordDataType::Integer { min, max } => {
-                    if r.data_type.bit_size() == 0 {
-                        // See comment above for scaled integers!
-                        while self.queues[i].len() < min_queue_size {
-                            self.queues[i].push_back(RecordValue::Integer(min));
-                        }
-                    } else {
+                    // See comment above for scaled integers!
+                    if r.data_type.bit_size() != 0 {
                         BitPack::unpack_ints(
                             &mut self.byte_streams[i],
                             min,
